@@ -533,3 +533,44 @@ func Build(L Layout, base [][]Item, rev2page1 []Item, rev3page []Item) ([]byte, 
 	data, _, err := f.Bytes()
 	return data, err
 }
+
+// ---- simple positioned-text documents (layout properties) ----
+
+// Placed is one text fragment shown at an exact integer position.
+type Placed struct {
+	X, Y, Size int
+	Text       string
+}
+
+// BuildSimple renders pages of positioned Helvetica/WinAnsi text, one Tj per
+// fragment placed with Tm, classic xref table, flat page tree.
+func BuildSimple(pages [][]Placed, width, height int) ([]byte, error) {
+	f := &pdfw.File{EOL: "lf"}
+	rev := pdfw.Revision{XRef: "table", Root: pdfw.Ref{Num: 1}}
+	kids := pdfw.Arr{}
+	n := 4
+	var items []pdfw.Item
+	for _, pg := range pages {
+		var b strings.Builder
+		b.WriteString("BT\n")
+		for _, p := range pg {
+			fmt.Fprintf(&b, "/F1 %d Tf 1 0 0 1 %d %d Tm %s Tj\n", p.Size, p.X, p.Y, pdfw.Render(pdfw.Str([]byte(p.Text))))
+		}
+		b.WriteString("ET\n")
+		items = append(items, pdfw.Item{Num: n, Val: pdfw.Dict{{"Type", pdfw.Name("Page")}, {"Parent", pdfw.Ref{Num: 2}},
+			{"MediaBox", pdfw.Arr{pdfw.Int(0), pdfw.Int(0), pdfw.Int(width), pdfw.Int(height)}},
+			{"Resources", pdfw.Dict{{"Font", pdfw.Dict{{"F1", pdfw.Ref{Num: 3}}}}}}, {"Contents", pdfw.Ref{Num: n + 1}}}})
+		items = append(items, pdfw.Item{Num: n + 1, Stm: &pdfw.Stream{Data: []byte(b.String())}})
+		kids = append(kids, pdfw.Ref{Num: n})
+		n += 2
+	}
+	head := []pdfw.Item{
+		{Num: 1, Val: pdfw.Dict{{"Type", pdfw.Name("Catalog")}, {"Pages", pdfw.Ref{Num: 2}}}},
+		{Num: 2, Val: pdfw.Dict{{"Type", pdfw.Name("Pages")}, {"Kids", kids}, {"Count", pdfw.Int(len(pages))}}},
+		{Num: 3, Val: pdfw.Dict{{"Type", pdfw.Name("Font")}, {"Subtype", pdfw.Name("Type1")}, {"BaseFont", pdfw.Name("Helvetica")}, {"Encoding", pdfw.Name("WinAnsiEncoding")}}},
+	}
+	rev.Items = append(head, items...)
+	f.Revs = []pdfw.Revision{rev}
+	data, _, err := f.Bytes()
+	return data, err
+}
